@@ -5,6 +5,7 @@ import ZkElGamal.Proofs.Slices
 import ZkElGamal.Props.C02
 import ZkElGamal.Props.C03
 import ZkElGamal.Props.C20
+import ZkElGamal.Proofs.RangeProve
 /-!
 # C05 — every true statement with a valid witness can be proven, and the proof verifies
 
@@ -20,7 +21,8 @@ For each sigma instruction `X`, over the abstract instantiation with lawful code
 Also: `Validity.complete2/3`, `BatchedValidity.complete2/3` (lo/hi combined with the recomputed `t`),
 `Cap.complete_below` (amount below the cap: equality branch real, max branch simulated) and
 `Cap.complete_at` (amount = cap: max branch real, equality branch simulated, delta commitment free),
-each with `new_context`. Range instructions: see C04 (`range_complete…`).
+each with `new_context`. Range instructions: `Range.complete` (all three widths, every admissible split),
+built on `Zk.Range.prove_complete` (bit-decomposition identity, inner-product folding, `s`-vector).
 
 The model's prover and verifier recompute the same challenge from the same bytes; that the
 *Rust* prover and verifier do is the correspondence part of the check.
@@ -692,3 +694,163 @@ end Cap
 end more
 
 end Zk.Props.C05
+
+/-! ## batched range-proof instructions (u64 / u128 / u256) -/
+namespace Zk.Props.C05.Range
+open Zk Zk.Range
+
+variable {F G T : Type} [Field F] [DecidableEq F] [AddCommGroup G] [Module F G] [DecidableEq G]
+  [PtCodec G] [ScCodec F] [PedGens G] [TranscriptOps T]
+  [LawfulPtCodec G] [LawfulScCodec F] [LawfulLen F G]
+
+theorem flatten_enc_length (l : ∀ P : G, (PtCodec.enc P).length = 32) (Ps : List G) :
+    ((Ps.map (PtCodec.enc (Pt := G))).flatten).length = 32 * Ps.length := by
+  induction Ps with
+  | nil => simp
+  | cons P Ps ih => simp [l, ih]; ring
+
+theorem encodeContext_length (l : ∀ P : G, (PtCodec.enc P).length = 32) (comms : List G) (bls : List ℕ) (h1 : comms.length = bls.length) (h8 : comms.length ≤ 8) :
+    (encodeContext comms bls).length = 264 := by
+  unfold encodeContext
+  simp only [List.length_append, List.length_replicate, List.length_map,
+    flatten_enc_length l, ← h1]
+  omega
+
+/-- the verifier's challenges exist as soon as the inner-product part has `k` rounds for `n = 2^k`
+    and no `L`, `R` is the identity encoding -/
+theorem challenges_isSome (t : T) (k : ℕ) (hk0 : k ≠ 0) (hk : k < 32) (pf : Proof F G)
+    (hl : pf.ipp.lB.length = k) (hr : pf.ipp.rB.length = k)
+    (hz : ∀ x ∈ pf.ipp.lB ++ pf.ipp.rB, Sigma.isZeroEnc x = false) :
+    ∃ c, challenges t (2 ^ k) pf = some c := by
+  unfold challenges
+  simp only
+  have hvs : ∃ r, verificationScalars (Sc := F) (2 ^ k) (challengeScalar (Sc := F) (challengeScalar (Sc := F)
+      (appendScalar (appendScalar (appendScalar (challengeScalar (Sc := F) (TranscriptOps.append (TranscriptOps.append
+        (challengeScalar (Sc := F) (challengeScalar (Sc := F) (TranscriptOps.append (TranscriptOps.append
+          (appendU64 (TranscriptOps.append t b!"dom-sep" b!"range-proof") b!"n" (2 ^ k)) b!"A" pf.aB) b!"S" pf.sB) b!"y").2 b!"z").2
+        b!"T_1" pf.t1B) b!"T_2" pf.t2B) b!"x").2 b!"t_x" pf.tx) b!"t_x_blinding" pf.txBlinding) b!"e_blinding" pf.eBlinding)
+      b!"w").2 b!"c").2 pf.ipp = some r := by
+    unfold verificationScalars
+    have h1 : ¬ (pf.ipp.lB.length ≠ pf.ipp.rB.length) := by rw [hl, hr]; simp
+    have h2 : ¬ (pf.ipp.lB.length = 0 ∨ pf.ipp.lB.length ≥ 32) := by rw [hl]; omega
+    have h3 : ¬ (2 ^ k ≠ 2 ^ pf.ipp.lB.length) := by rw [hl]; simp
+    have h4 : (pf.ipp.lB.any Sigma.isZeroEnc || pf.ipp.rB.any Sigma.isZeroEnc) = false := by
+      rw [Bool.or_eq_false_iff, List.any_eq_false, List.any_eq_false]
+      exact ⟨fun x hx => by simp [hz x (by simp [hx])], fun x hx => by simp [hz x (by simp [hx])]⟩
+    simp only [h1, h2, h3, h4, if_false, Bool.false_eq_true]
+    exact ⟨_, rfl⟩
+  obtain ⟨⟨uSq, uInvSq, s, t'⟩, hr'⟩ := hvs
+  rw [hr']
+  exact ⟨_, rfl⟩
+
+/-- **byte-level completeness of the batched range-proof instructions**: what the constructor
+    produces for in-range amounts and matching commitments verifies, provided no proof point is the
+    identity and the challenges `y`, `u_j` are non-zero (conditions on honest randomness, stated on
+    the produced bytes) -/
+theorem complete (gens : ℕ → List G × List G) (k width : ℕ)
+    (hkw : (k = 6 ∧ width = 64) ∨ (k = 7 ∧ width = 128) ∨ (k = 8 ∧ width = 256))
+    (comms : List G) (amounts bls : List ℕ) (opens : List F) (nz : Nonces F) (b : Bytes)
+    (hnew : Range.new T gens width comms amounts bls opens nz = some b)
+    (hg1 : (gens width).1.length = width) (hg2 : (gens width).2.length = width)
+    (hsL : nz.sL.length = width) (hsR : nz.sR.length = width)
+    (hcomm : comms = List.zipWith (fun v r => (pedersenWith (ScCodec.ofNat v : F) r : G)) amounts opens)
+    (hrange : ∀ p ∈ List.zip amounts bls, p.1 < 2 ^ p.2)
+    (hpol : ∀ pf : Proof F G, parseProof (b.drop 264) = some pf →
+        Sigma.isZeroEnc pf.aB = false ∧ Sigma.isZeroEnc pf.sB = false ∧ Sigma.isZeroEnc pf.t1B = false ∧
+        Sigma.isZeroEnc pf.t2B = false ∧ ∀ x ∈ pf.ipp.lB ++ pf.ipp.rB, Sigma.isZeroEnc x = false)
+    (hch : ∀ (pf : Proof F G) (c : Challenges F), parseProof (b.drop 264) = some pf →
+        challenges (contextTranscript T (b.take 264)) width pf = some c → c.y ≠ 0 ∧ ∀ u ∈ c.uSq, u ≠ 0) :
+    verifyProof F G T gens width b = true := by
+  have l := LawfulLen.pt_len (F := F) (G := G)
+  have ls := LawfulLen.sc_len (F := F) (G := G)
+  have : PtLen G := ⟨l⟩
+  have hw : width = 2 ^ k := by rcases hkw with ⟨rfl, rfl⟩ | ⟨rfl, rfl⟩ | ⟨rfl, rfl⟩ <;> norm_num
+  have hk32 : k < 32 := by rcases hkw with ⟨rfl, _⟩ | ⟨rfl, _⟩ | ⟨rfl, _⟩ <;> norm_num
+  have hk0 : k ≠ 0 := by rcases hkw with ⟨rfl, _⟩ | ⟨rfl, _⟩ | ⟨rfl, _⟩ <;> norm_num
+  have hpl : proofLen width = (7 + (2 * k + 2)) * 32 := by
+    rcases hkw with ⟨rfl, rfl⟩ | ⟨rfl, rfl⟩ | ⟨rfl, rfl⟩ <;> simp [proofLen]
+  unfold Range.new at hnew
+  split at hnew
+  · cases hnew
+  rename_i hsum
+  split at hnew
+  · cases hnew
+  rename_i hlens
+  split at hnew
+  · cases hnew
+  rename_i hany
+  split at hnew
+  · cases hnew
+  split at hnew
+  · cases hnew
+  rename_i hbl
+  simp only [Option.some.injEq] at hnew
+  have hsum' : bls.sum = width := by simpa using hsum
+  have h8 : comms.length ≤ 8 := by omega
+  have hca : comms.length = amounts.length := by omega
+  have hcb : comms.length = bls.length := by omega
+  have hco : comms.length = opens.length := by omega
+  have hV : ∀ V ∈ comms, V ≠ 0 := by
+    intro V hV h0
+    apply hany
+    rw [List.any_eq_true]; exact ⟨V, hV, by simp [h0]⟩
+  have hbls : ∀ n ∈ bls, 1 ≤ n ∧ n ≤ 64 := by
+    intro n hn
+    by_contra hc
+    apply hbl
+    rw [List.any_eq_true]; exact ⟨n, hn, by simp; omega⟩
+  have hc0 : comms.length ≠ 0 := by
+    intro h0
+    have : bls = [] := List.length_eq_zero_iff.mp (by omega)
+    rw [this] at hsum'
+    simp at hsum'
+    have : 0 < 2 ^ k := Nat.pow_pos (by norm_num)
+    omega
+  set ctx := encodeContext comms bls with hctx
+  have lctx : ctx.length = 264 := encodeContext_length l comms bls hcb h8
+  obtain ⟨A, S, T1, T2, tx, txb, eb, Ls, Rs, a', b', hLs, hRs, hpb, hmega⟩ :=
+    prove_complete (contextTranscript T ctx) k (by omega) (gens width).1 (gens width).2 bls amounts opens nz
+      (by omega) (by omega) (by omega) (by omega) (by omega) (by omega) (by omega) hrange _ rfl
+  rw [hpb] at hnew
+  subst hnew
+  set pf := mkProof A S T1 T2 tx txb eb Ls Rs a' b' with hpf
+  have htake : (ctx ++ (PtCodec.enc A ++ PtCodec.enc S ++ PtCodec.enc T1 ++ PtCodec.enc T2 ++ ScCodec.enc tx
+      ++ ScCodec.enc txb ++ ScCodec.enc eb ++ ((List.zipWith (· ++ ·) (Ls.map PtCodec.enc) (Rs.map PtCodec.enc)).flatten
+        ++ ScCodec.enc a' ++ ScCodec.enc b'))).take 264 = ctx := List.take_left' lctx
+  have hdrop : (ctx ++ (PtCodec.enc A ++ PtCodec.enc S ++ PtCodec.enc T1 ++ PtCodec.enc T2 ++ ScCodec.enc tx
+      ++ ScCodec.enc txb ++ ScCodec.enc eb ++ ((List.zipWith (· ++ ·) (Ls.map PtCodec.enc) (Rs.map PtCodec.enc)).flatten
+        ++ ScCodec.enc a' ++ ScCodec.enc b'))).drop 264 = _ := List.drop_left' lctx
+  have hparse : parseProof (Sc := F) (Pt := G) (PtCodec.enc A ++ PtCodec.enc S ++ PtCodec.enc T1 ++ PtCodec.enc T2 ++ ScCodec.enc tx
+      ++ ScCodec.enc txb ++ ScCodec.enc eb ++ ((List.zipWith (· ++ ·) (Ls.map PtCodec.enc) (Rs.map PtCodec.enc)).flatten
+        ++ ScCodec.enc a' ++ ScCodec.enc b')) = some pf :=
+    parseProof_enc A S T1 T2 tx txb eb Ls Rs a' b' (by omega) (by omega)
+  rw [hdrop] at hpol hch
+  rw [htake] at hch
+  obtain ⟨z1, z2, z3, z4, z5⟩ := hpol pf hparse
+  obtain ⟨c, hc⟩ := challenges_isSome (contextTranscript T ctx) k hk0 hk32 pf
+    (by simp [hpf, mkProof, hLs]) (by simp [hpf, mkProof, hRs]) z5
+  rw [← hw] at hc
+  obtain ⟨hy, hu⟩ := hch pf c hparse hc
+  have hm := hmega c (by rw [hsum']; exact hc) hy hu
+  apply (Props.C04.verify_ok_iff gens width _).mpr
+  refine ⟨?_, comms, bls, pf, c, ?_, h8, hsum', ?_, hcb, hV, ?_, z1, z2, z3, z4, ?_, ?_, ?_⟩
+  · have hL : ∀ x ∈ Ls.map (PtCodec.enc (Pt := G)), x.length = 32 := by
+      intro x hx; obtain ⟨P, _, rfl⟩ := List.mem_map.mp hx; exact l P
+    have hR : ∀ x ∈ Rs.map (PtCodec.enc (Pt := G)), x.length = 32 := by
+      intro x hx; obtain ⟨P, _, rfl⟩ := List.mem_map.mp hx; exact l P
+    have hil := interleave_length (Ls.map (PtCodec.enc (Pt := G))) (Rs.map PtCodec.enc) (by simp [hLs, hRs]) hL hR
+    simp only [List.length_append, lctx, l, ls, hil, List.length_map, hLs, hpl]
+    ring
+  · rw [htake]; exact Zk.Range.parseContext_encode comms bls hcb h8 hc0 hV hbls
+  · rw [hdrop]; exact hparse
+  · rw [hsum', hw]; exact (isPow2_iff _).mpr ⟨k, rfl⟩
+  · rw [htake, hsum']; exact hc
+  · obtain ⟨uSq, uInvSq, s, t', d, hvs, rfl⟩ := challenges_some _ _ _ _ hc
+    obtain ⟨q1, q2, q3, -, -, -⟩ := Props.C04.verificationScalars_lengths _ _ _ _ _ _ _ hvs
+    simp only [megaScalars, megaPoints, List.length_append, List.length_cons, List.length_nil, List.length_map,
+      List.length_zip, List.length_reverse, powers_length, concatZAnd2_length, q1, q2, q3, hg1, hg2, hsum',
+      hpf, mkProof, hLs, hRs, hcb]
+    omega
+  · rw [← hcomm] at hm; exact hm
+
+end Zk.Props.C05.Range
